@@ -292,7 +292,7 @@ def run_tasks(params, ch):
     ops = SCENARIOS[params['scenario']]
     for op in ops:
         expected(op)          # solo references are computed before this execution's session exists (they use a session of their own)
-    s = Session(ch, CFG_MIRROR if params.get('mirror') else CFG, twin='async', explore_io=False, max_calls=5000)
+    s = Session(ch, dict(CFG_MIRROR if params.get('mirror') else CFG, lazy_write=bool(params.get('lazy'))), twin='async', explore_io=False, max_calls=5000)
     probe = None
     try:
         r0 = s.op(('connect',))
@@ -369,6 +369,6 @@ def _parts(tier):
                         what='line-level scheduling points, two preemptions', bound='preemptions <= 2, one scenario'))
     out.append(Part('threads-short-writes', [{'scenario': k, 'wcap': True} for k in ('shell2|shell1', 'shell|push')], run_threads, {'sched': 1, 'wcap': 1, 'dev-order': 0, 'lock-timeout': 1}, split=2,
                     what='2 threads over a transport that writes short: one preemption x one short write', bound='preemptions <= 1, short writes <= 1'))
-    out.append(Part('tasks', [{'scenario': k} for k in SCENARIOS] + [{'scenario': k, 'mirror': True} for k in SCENARIOS], run_tasks, {'io-order': None, 'dev-order': None}, split=2,
+    out.append(Part('tasks', [{'scenario': k} for k in SCENARIOS] + [{'scenario': k, 'mirror': True} for k in SCENARIOS] + [{'scenario': k, 'lazy': True} for k in SCENARIOS], run_tasks, {'io-order': None, 'dev-order': None}, split=2,  # lazy: a transport that keeps the written buffer by reference until the next call (asyncio StreamWriter)
                     what='asyncio tasks: every completion order of pending transport I/O x every device wire order', bound='complete (no bound)'))
     return out
